@@ -403,10 +403,24 @@ def fmt(node, depth=0):
 
 def const_eval(node, env=None):
     """Evaluate an integer-valued node; returns int or None."""
-    node = strip_casts(node)
+    if node.kind == "cast":
+        v = const_eval(node[1], env)
+        if v is None:
+            return None
+        bits = {"u8": 8, "u16": 16, "u32": 32, "u64": 64, "usize": 64, "u128": 128}.get(node[2])
+        if bits and node[3] == "IntToInt":
+            return v & ((1 << bits) - 1)
+        return v
+    if node.kind == "phi" and len(node[1]) == 1:
+        return const_eval(node[1][0], env)
     k = node.kind
     if k == "const":
         return node[1]
+    if k == "param" and env is not None and node[1] in env:
+        return env[node[1]]
+    if k == "un" and node[1] == "Not":
+        v = const_eval(node[2], env)
+        return None if v is None else (0 if v else 1)
     if k == "bin":
         a = const_eval(node[2], env)
         b = const_eval(node[3], env)
@@ -454,7 +468,8 @@ class Guard:
     literal = (pred_node, value) where value is True/False for boolean predicates,
     or a variant name for discriminant switches ('!A|B' for otherwise edges)."""
 
-    def __init__(self, bb, pred, edges, kind):
+    def __init__(self, bb, pred, edges, kind, adt=None):
+        self.adt = adt
         self.bb = bb
         self.pred = pred      # node (after removing Not)
         self.edges = edges    # list of (succ_bb, value)
@@ -502,7 +517,7 @@ def guard_at(facts, body, tracer, bb):
             edges.append((t["otherwise"], rest))
         else:
             edges.append((t["otherwise"], None))  # unreachable otherwise
-        return Guard(bb, n[1], edges, "discr")
+        return Guard(bb, n[1], edges, "discr", n[2])
     # boolean?
     vals = [v for v, _ in t["targets"]]
     if vals == [0]:
